@@ -233,6 +233,199 @@ func withWatchdog(limit time.Duration, f func()) bool {
 	}
 }
 
+// runQuery executes one JSONPath/Eval query from handle startH of session p through every check of the path stream: reference
+// evaluation (which logs the stdlib answers the model needs), the implementation under a watchdog, the model comparison, purity
+// (C13), and the independent evaluator (C07/C08/C09/C10). It returns false when the stream has to stop.
+func runQuery(o *Out, p *probeRun, si int, sr *Rng, startH string, isPath bool, text string, sels []Sel, ex *Expr, damaged bool) bool {
+	emit := func(f []string, obs string) {
+		o.Emit(reqLine(f), obs, "")
+	}
+	start := p.s.node(startH)
+	var startRef *Ref
+	if start != nil {
+		startRef = p.ref[start]
+	}
+	log := &OracleLog{}
+	ev := &RefEval{log: log}
+	// reference evaluation first: it logs the stdlib calls the model needs
+	var refRes []*Ref
+	var refVal *RVal
+	var refErrV error
+	if !damaged && startRef != nil {
+		if isPath {
+			refRes, refErrV = ev.evalPath(startRef, sels)
+		} else {
+			refVal, refErrV = ev.eval(startRef, ex)
+		}
+	}
+	for _, l := range log.lines {
+		f := strings.Split(l, "\t")
+		emit(f, "ok")
+	}
+	kind := "eval"
+	if isPath {
+		kind = "jsonpath"
+	}
+	f := []string{kind, startH, hexOrDash([]byte(text))}
+	privBefore := p.privateFingerprint(len(p.s.handles))
+	var obs string
+	finished := withWatchdog(20*time.Second, func() { obs = p.s.execQuery(f) })
+	o.Check("C11", "no-panic/bounded(query)")
+	if !finished {
+		o.Fail("C11", "no-panic/bounded(query)", "query did not return within 20 s", fmt.Sprintf("doc-session %d; %s from %s: %s", si, kind, startH, text), "", "")
+		return false
+	}
+	key := ""
+	if strings.HasPrefix(obs, "ok") && obs != "ok []" {
+		key = kind + text + obs
+	}
+	o.Emit(reqLine(f), obs, key)
+	o.Stat("query." + kind + "." + strings.SplitN(obs, " ", 2)[0])
+	if strings.HasPrefix(obs, "panic") {
+		o.Fail("C11", "no-panic/bounded(query)", "panic", strings.Join(p.hist, "\n")+"\n"+kind+" "+startH+" "+text, "", obs)
+		// a panic is no documented result either: it also fails the property that says what the query should have returned
+		if !damaged && startRef != nil && refErrV != errUnspecified {
+			prop, probe := "C10", "eval-vs-independent"
+			if isPath {
+				prop, probe = "C07", "select-vs-plain-data"
+				if hasSel(sels, "filter") || hasSel(sels, "script") {
+					prop = "C08"
+				}
+			} else if countBin(ex) >= 2 {
+				prop = "C09"
+			}
+			o.Check(prop, probe)
+			o.Fail(prop, probe, "the library panics where the independent evaluator gives a result or an error", strings.Join(p.hist, "\n")+"\n"+kind+" "+startH+" "+text, fmt.Sprint(refErrV), obs)
+		}
+		return true // the probes below call the library again, unprotected
+	}
+	if strings.Contains(obs, "NIL") {
+		o.Fail("C11", "no-nil-entry", "a successful JSONPath result contains a nil entry", strings.Join(p.hist, "\n")+"\n"+kind+" "+startH+" "+text, "", obs)
+		o.Fail("C07", "no-nil-entry", "a successful JSONPath result contains a nil entry", strings.Join(p.hist, "\n")+"\n"+kind+" "+startH+" "+text, "", obs)
+	}
+	// C13: queries never change the document
+	o.Check("C13", "query-pure")
+	if after := p.privateFingerprint(len(p.s.handles)); after != privBefore {
+		o.Fail("C13", "query-pure", "a query changed the document: "+kind+" "+text, strings.Join(p.hist, "\n"), firstDiff(privBefore, after), "")
+	}
+	emit([]string{"dump"}, p.s.dump())
+	if isPath && !damaged && start != nil && len(sels) >= 3 && !usesLengthName(sels) {
+		histL := strings.Join(p.hist, "\n") + "\n" + kind + " " + startH + " " + text
+		full, fullErr := start.JSONPath(text)
+		// locality of a filter/script segment: over several incoming nodes it selects what it selects on each
+		// of them alone, in order (no temporary survives from one incoming node to the next)
+		if last := sels[len(sels)-1]; len(sels) >= 3 && fullErr == nil && (last.Kind == "filter" || last.Kind == "script") {
+			if pre, perr := start.JSONPath(printSels(sels[:len(sels)-1])); perr == nil && len(pre) > 1 {
+				o.Check("C08", "segment-local")
+				seg := printSels([]Sel{{Kind: "current"}, last})
+				var cat []*ajson.Node
+				bad := false
+				for _, n := range pre {
+					one, oerr := n.JSONPath(seg)
+					if oerr != nil {
+						bad = true
+						break
+					}
+					cat = append(cat, one...)
+				}
+				if !bad && !sameNodes(full, cat) {
+					o.Fail("C08", "segment-local", "a filter/script segment over several incoming nodes differs from the concatenation of its results on each node alone ("+seg+")", histL, nodesToString(p, cat), nodesToString(p, full))
+				}
+			}
+		}
+	}
+	if damaged || startRef == nil || refErrV == errUnspecified {
+		return true
+	}
+	hist := strings.Join(p.hist, "\n") + "\n" + kind + " " + startH + " " + text
+	if isPath {
+		prop := "C07"
+		if hasSel(sels, "filter") || hasSel(sels, "script") {
+			prop = "C08"
+		}
+		if usesLengthName(sels) {
+			return true // `length` on arrays is the documented synthesized-node idiom, outside the selector grammar
+		}
+		o.Check(prop, "select-vs-plain-data")
+		res, err := start.JSONPath(text)
+		if (err == nil) != (refErrV == nil) {
+			o.Fail(prop, "select-vs-plain-data", "JSONPath succeeds/fails differently from the independent evaluator", hist, fmt.Sprint(refErrV), fmt.Sprint(err))
+			return true
+		}
+		if err != nil {
+			return true
+		}
+		got := make([]*Ref, len(res))
+		ok := true
+		for i, n := range res {
+			if n == nil || p.ref[n] == nil {
+				ok = false
+				break
+			}
+			got[i] = p.ref[n]
+		}
+		if !ok {
+			o.Fail(prop, "select-vs-plain-data", "result holds a nil or synthesised node instead of the tree's own node", hist, refsToString(p, refRes), obs)
+			return true
+		}
+		same := len(got) == len(refRes)
+		if same {
+			if hasSel(sels, "descent") {
+				same = sameMultiset(got, refRes)
+			} else {
+				for i := range got {
+					if got[i] != refRes[i] {
+						same = false
+					}
+				}
+			}
+		}
+		if !same {
+			o.Fail(prop, "select-vs-plain-data", "JSONPath result differs from the nodes the selectors designate", hist, refsToString(p, refRes), refsToString(p, got))
+		}
+		// repeatability
+		res2, _ := start.JSONPath(text)
+		if !sameNodes(res, res2) {
+			o.Fail("C07", "repeatable", "the same path gives a different list the second time", hist, "", "")
+		}
+	} else {
+		prop := "C10"
+		if countBin(ex) >= 2 {
+			prop = "C09"
+		}
+		if exprUsesLength(ex) {
+			return true // `length` applied to an array is the documented synthesised-node idiom
+		}
+		o.Check(prop, "eval-vs-independent")
+		res, err := ajson.Eval(start, text)
+		if (err == nil) != (refErrV == nil) {
+			o.Fail(prop, "eval-vs-independent", "Eval succeeds/fails differently from the independent evaluator", hist, fmt.Sprint(rvalCanon(refVal), refErrV), fmt.Sprint(obs, err))
+			return true
+		}
+		if err != nil {
+			return true
+		}
+		want := refVal
+		if want == nil {
+			want = rnull() // an absent result is reported as null
+		}
+		if want.bad || rvalHasRange(want) {
+			return true // the one permitted read error (number literal out of range) surfaces when the result is read
+		}
+		if want.ref != nil && !want.ref.synth {
+			if p.ref[res] != want.ref {
+				o.Fail(prop, "eval-vs-independent", "Eval should return the document's own node "+refPath(want.ref), hist, refPath(want.ref), obs)
+			}
+			return true
+		}
+		v, uerr := res.Unpack()
+		if uerr != nil || canonNaN(v) != rvalCanon(want) || res.Type() != want.kind {
+			o.Fail(prop, "eval-vs-independent", "Eval result differs from the independent evaluation", hist, fmt.Sprintf("%d:%s", int(want.kind), rvalCanon(want)), fmt.Sprintf("%d:%s %v", int(res.Type()), canonValueOrErr(v, uerr), uerr))
+		}
+	}
+	return true
+}
+
 func streamPath(o *Out, r *Rng, tier string) {
 	ajson.VerifSetRand(func() float64 { return 0.25 }, func(n int) int { return n / 2 })
 	nSess, nQ := 150, 24
@@ -289,13 +482,6 @@ func streamPath(o *Out, r *Rng, tier string) {
 			} else if sr.Chance(4) {
 				startH = "-"
 			}
-			start := p.s.node(startH)
-			var startRef *Ref
-			if start != nil {
-				startRef = p.ref[start]
-			}
-			log := &OracleLog{}
-			ev := &RefEval{log: log}
 			isPath := sr.Chance(55)
 			var text string
 			var sels []Sel
@@ -316,172 +502,138 @@ func streamPath(o *Out, r *Rng, tier string) {
 				text = mutateString(sr, text, exprAlphabet)
 				damaged = true
 			}
-			// reference evaluation first: it logs the stdlib calls the model needs
-			var refRes []*Ref
-			var refVal *RVal
-			var refErrV error
-			if !damaged && startRef != nil {
-				if isPath {
-					refRes, refErrV = ev.evalPath(startRef, sels)
-				} else {
-					refVal, refErrV = ev.eval(startRef, ex)
-				}
-			}
-			for _, l := range log.lines {
-				f := strings.Split(l, "\t")
-				emit(f, "ok")
-			}
-			kind := "eval"
-			if isPath {
-				kind = "jsonpath"
-			}
-			f := []string{kind, startH, hexOrDash([]byte(text))}
-			privBefore := p.privateFingerprint(len(p.s.handles))
-			var obs string
-			finished := withWatchdog(20*time.Second, func() { obs = p.s.execQuery(f) })
-			o.Check("C11", "no-panic/bounded(query)")
-			if !finished {
-				o.Fail("C11", "no-panic/bounded(query)", "query did not return within 20 s", fmt.Sprintf("doc-session %d; %s from %s: %s", si, kind, startH, text), "", "")
+			if !runQuery(o, p, si, sr, startH, isPath, text, sels, ex, damaged) {
 				return
-			}
-			key := ""
-			if strings.HasPrefix(obs, "ok") && obs != "ok []" {
-				key = kind + text + obs
-			}
-			o.Emit(reqLine(f), obs, key)
-			o.Stat("query." + kind + "." + strings.SplitN(obs, " ", 2)[0])
-			if strings.HasPrefix(obs, "panic") {
-				o.Fail("C11", "no-panic/bounded(query)", "panic", strings.Join(p.hist, "\n")+"\n"+kind+" "+startH+" "+text, "", obs)
-			}
-			if strings.Contains(obs, "NIL") {
-				o.Fail("C11", "no-nil-entry", "a successful JSONPath result contains a nil entry", strings.Join(p.hist, "\n")+"\n"+kind+" "+startH+" "+text, "", obs)
-				o.Fail("C07", "no-nil-entry", "a successful JSONPath result contains a nil entry", strings.Join(p.hist, "\n")+"\n"+kind+" "+startH+" "+text, "", obs)
-			}
-			// C13: queries never change the document
-			o.Check("C13", "query-pure")
-			if after := p.privateFingerprint(len(p.s.handles)); after != privBefore {
-				o.Fail("C13", "query-pure", "a query changed the document: "+kind+" "+text, strings.Join(p.hist, "\n"), firstDiff(privBefore, after), "")
-			}
-			emit([]string{"dump"}, p.s.dump())
-			if isPath && !damaged && start != nil && len(sels) >= 3 && !usesLengthName(sels) {
-				histL := strings.Join(p.hist, "\n") + "\n" + kind + " " + startH + " " + text
-				full, fullErr := start.JSONPath(text)
-			// locality of a filter/script segment: over several incoming nodes it selects what it selects on each
-			// of them alone, in order (no temporary survives from one incoming node to the next)
-			if last := sels[len(sels)-1]; len(sels) >= 3 && fullErr == nil && (last.Kind == "filter" || last.Kind == "script") {
-				if pre, perr := start.JSONPath(printSels(sels[:len(sels)-1])); perr == nil && len(pre) > 1 {
-					o.Check("C08", "segment-local")
-					seg := printSels([]Sel{{Kind: "current"}, last})
-					var cat []*ajson.Node
-					bad := false
-					for _, n := range pre {
-						one, oerr := n.JSONPath(seg)
-						if oerr != nil {
-							bad = true
-							break
-						}
-						cat = append(cat, one...)
-					}
-					if !bad && !sameNodes(full, cat) {
-						o.Fail("C08", "segment-local", "a filter/script segment over several incoming nodes differs from the concatenation of its results on each node alone ("+seg+")", histL, nodesToString(p, cat), nodesToString(p, full))
-					}
-				}
-			}
-			}
-			if damaged || startRef == nil || refErrV == errUnspecified {
-				continue
-			}
-			hist := strings.Join(p.hist, "\n") + "\n" + kind + " " + startH + " " + text
-			if isPath {
-				prop := "C07"
-				if hasSel(sels, "filter") || hasSel(sels, "script") {
-					prop = "C08"
-				}
-				if usesLengthName(sels) {
-					continue // `length` on arrays is the documented synthesized-node idiom, outside the selector grammar
-				}
-				o.Check(prop, "select-vs-plain-data")
-				res, err := start.JSONPath(text)
-				if (err == nil) != (refErrV == nil) {
-					o.Fail(prop, "select-vs-plain-data", "JSONPath succeeds/fails differently from the independent evaluator", hist, fmt.Sprint(refErrV), fmt.Sprint(err))
-					continue
-				}
-				if err != nil {
-					continue
-				}
-				got := make([]*Ref, len(res))
-				ok := true
-				for i, n := range res {
-					if n == nil || p.ref[n] == nil {
-						ok = false
-						break
-					}
-					got[i] = p.ref[n]
-				}
-				if !ok {
-					o.Fail(prop, "select-vs-plain-data", "result holds a nil or synthesised node instead of the tree's own node", hist, refsToString(p, refRes), obs)
-					continue
-				}
-				same := len(got) == len(refRes)
-				if same {
-					if hasSel(sels, "descent") {
-						same = sameMultiset(got, refRes)
-					} else {
-						for i := range got {
-							if got[i] != refRes[i] {
-								same = false
-							}
-						}
-					}
-				}
-				if !same {
-					o.Fail(prop, "select-vs-plain-data", "JSONPath result differs from the nodes the selectors designate", hist, refsToString(p, refRes), refsToString(p, got))
-				}
-				// repeatability
-				res2, _ := start.JSONPath(text)
-				if !sameNodes(res, res2) {
-					o.Fail("C07", "repeatable", "the same path gives a different list the second time", hist, "", "")
-				}
-			} else {
-				prop := "C10"
-				if countBin(ex) >= 2 {
-					prop = "C09"
-				}
-				if exprUsesLength(ex) {
-					continue // `length` applied to an array is the documented synthesised-node idiom
-				}
-				o.Check(prop, "eval-vs-independent")
-				res, err := ajson.Eval(start, text)
-				if (err == nil) != (refErrV == nil) {
-					o.Fail(prop, "eval-vs-independent", "Eval succeeds/fails differently from the independent evaluator", hist, fmt.Sprint(rvalCanon(refVal), refErrV), fmt.Sprint(obs, err))
-					continue
-				}
-				if err != nil {
-					continue
-				}
-				want := refVal
-				if want == nil {
-					want = rnull() // an absent result is reported as null
-				}
-				if want.bad || rvalHasRange(want) {
-					continue // the one permitted read error (number literal out of range) surfaces when the result is read
-				}
-				if want.ref != nil && !want.ref.synth {
-					if p.ref[res] != want.ref {
-						o.Fail(prop, "eval-vs-independent", "Eval should return the document's own node "+refPath(want.ref), hist, refPath(want.ref), obs)
-					}
-					continue
-				}
-				v, uerr := res.Unpack()
-				if uerr != nil || canonNaN(v) != rvalCanon(want) || res.Type() != want.kind {
-					o.Fail(prop, "eval-vs-independent", "Eval result differs from the independent evaluation", hist, fmt.Sprintf("%d:%s", int(want.kind), rvalCanon(want)), fmt.Sprintf("%d:%s %v", int(res.Type()), canonValueOrErr(v, uerr), uerr))
-				}
 			}
 		}
 	}
 	// exhaustive operator pairs (quick) and triples (thorough): a op1 b op2 c [op3 d]
 	streamOperatorChains(o, tier)
 	streamSliceSweep(o, tier)
+	streamOperandMatrix(o, r.Fork(31337), tier)
+}
+
+// matrixDoc: one member of every operand class an operator or function can meet
+const matrixDoc = `{"i":-1,"z":0,"p":2,"f":0.5,"nf":-2.5,"h":64,"big":1e300,"s":"a","ds":"12","es":"","t":true,"fl":false,"n":null,"arr":[1,2],"ea":[],"obj":{"k":1},"eo":{},"r":1e400,"b64":"YWJj"}`
+
+// streamOperandMatrix: every binary operator on every pair of operand classes, every function on every operand class — literals
+// and values read from the document (negative, zero, fractional, huge, out-of-range, strings, booleans, null, containers, absent)
+// — and the node-returning functions on roots of different provenance (parsed, rebuilt by SetArray, built by a constructor).
+// Every query goes through runQuery: model comparison, no panic / bounded (C11), purity (C13), independent evaluator (C10).
+func streamOperandMatrix(o *Out, r *Rng, tier string) {
+	lit := func(k, v string) *Expr {
+		switch k {
+		case "num":
+			return &Expr{Kind: "num", Num: v}
+		case "str":
+			return &Expr{Kind: "str", Str: v, Q: '\''}
+		case "const":
+			return &Expr{Kind: "const", Name: v}
+		}
+		return &Expr{Kind: "path", Path: []Sel{{Kind: "current"}, {Kind: "name", Name: v}}}
+	}
+	operands := []*Expr{
+		lit("num", "-1"), lit("num", "0"), lit("num", "2"), lit("num", "0.5"), lit("num", "-2.5"), lit("num", "64"), lit("num", "1e300"),
+		lit("str", "a"), lit("str", ""), lit("str", "12"), lit("const", "true"), lit("const", "false"), lit("const", "null"),
+		lit("path", "i"), lit("path", "z"), lit("path", "f"), lit("path", "s"), lit("path", "t"), lit("path", "n"), lit("path", "arr"),
+		lit("path", "ea"), lit("path", "obj"), lit("path", "missing"), lit("path", "r"), lit("path", "big"), lit("path", "b64"),
+		{Kind: "path", Path: []Sel{{Kind: "current"}}}, {Kind: "path", Path: []Sel{{Kind: "root"}, {Kind: "descent"}, {Kind: "name", Name: "k"}}},
+		{Kind: "path", Path: []Sel{{Kind: "current"}, {Kind: "name", Name: "arr"}, {Kind: "wild"}}},
+	}
+	left, right := operands, operands
+	if tier != "thorough" {
+		// quick: every operator with every RIGHT operand class against a rotating third of the left classes
+		left = nil
+		for i, e := range operands {
+			if i%3 == int(r.Intn(3)) || i < 7 {
+				left = append(left, e)
+			}
+		}
+	}
+	newSession := func(build func(g *HistGen)) *probeRun {
+		p := &probeRun{o: o, s: &Session{}, ref: map[*ajson.Node]*Ref{}}
+		exec := func(f []string) string {
+			obs := p.step(f, false)
+			o.Emit(reqLine(f), obs, "")
+			return obs
+		}
+		g := &HistGen{r: r, s: p.s, exec: exec}
+		g.do("reset")
+		build(g)
+		o.Emit(reqLine([]string{"dump"}), p.s.dump(), "")
+		return p
+	}
+	count := 0
+	var p *probeRun
+	fresh := func() {
+		p = newSession(func(g *HistGen) { g.do("parse", hexOrDash([]byte(matrixDoc))) })
+	}
+	fresh()
+	run := func(ex *Expr) bool {
+		count++
+		if count%60 == 0 { // evaluation results are never freed in the model's heap
+			fresh()
+		}
+		o.Stat("matrix.queries")
+		return runQuery(o, p, -1, r, "0", false, printExpr(ex, nil), nil, ex, false)
+	}
+	for _, op := range allOps {
+		for _, l := range left {
+			for _, rt := range right {
+				if !run(&Expr{Kind: "bin", Name: op, L: l, R: rt}) {
+					return
+				}
+			}
+		}
+	}
+	for _, fn := range fnNames {
+		for _, a := range operands {
+			if !run(&Expr{Kind: "call", Name: fn, L: a}) {
+				return
+			}
+		}
+	}
+	// node-returning and aggregate functions on roots of different provenance
+	roots := []func(g *HistGen){
+		func(g *HistGen) { g.do("parse", hexOrDash([]byte(`[1,"x",[3],{"a":4}]`))) },
+		func(g *HistGen) { // a parsed root rebuilt by SetArray: an array without source text
+			g.do("parse", hexOrDash([]byte(`{"old":true}`)))
+			a, b := g.freshNum(), g.freshNum()
+			g.do("setarr", "0", a+","+b)
+		},
+		func(g *HistGen) { // a parsed root rebuilt by SetObject
+			g.do("parse", hexOrDash([]byte(`[0]`)))
+			a := g.freshNum()
+			g.do("setobj", "0", hexOrDash([]byte("k"))+"="+a)
+		},
+		func(g *HistGen) { // a tree built by the constructors (handle 0 must be the root: build children first, then rebind)
+			g.do("arr", "-", "e")
+			a, b := g.freshNum(), g.freshNum()
+			g.do("apparr", "0", a+","+b)
+		},
+		func(g *HistGen) {
+			g.do("obj", "-", "e")
+			a := g.freshNum()
+			g.do("appobj", "0", hexOrDash([]byte("k")), a)
+		},
+	}
+	self := []*Expr{
+		{Kind: "path", Path: []Sel{{Kind: "current"}}}, {Kind: "path", Path: []Sel{{Kind: "root"}}},
+		{Kind: "path", Path: []Sel{{Kind: "current"}, {Kind: "wild"}}}, {Kind: "path", Path: []Sel{{Kind: "root"}, {Kind: "descent"}}},
+		{Kind: "path", Path: []Sel{{Kind: "current"}, {Kind: "index", Index: 0}}}, {Kind: "path", Path: []Sel{{Kind: "current"}, {Kind: "name", Name: "k"}}},
+	}
+	for _, build := range roots {
+		p = newSession(build)
+		for _, fn := range []string{"first", "last", "parent", "root", "key", "length", "size", "sum", "avg", "not", "is_array", "is_object"} {
+			for _, a := range self {
+				count = 1
+				o.Stat("matrix.queries")
+				if !runQuery(o, p, -1, r, "0", false, printExpr(&Expr{Kind: "call", Name: fn, L: a}, nil), nil, &Expr{Kind: "call", Name: fn, L: a}, false) {
+					return
+				}
+			}
+		}
+	}
 }
 
 // streamSliceSweep: every slice [s:e:st] with bounds around the array sizes, applied to arrays of ALL sizes 0..N at once
